@@ -149,7 +149,7 @@ pub fn nonuniform_check(b: &Bound, texts: &[String], depth_of: &dyn Fn(&str) -> 
     use std::collections::HashMap;
     let mut bad = vec![];
     let vars: Vec<_> = b.bn.variables().collect();
-    for counts in [vec![3u16, 1, 2], vec![1, 3, 1], vec![2, 1, 4]] {
+    for counts in [vec![3u16, 1, 2], vec![1, 3, 1], vec![2, 1, 4], vec![3, 2, 2], vec![2, 3, 4], vec![4, 1, 1], vec![2, 4, 3]] {
         let map: HashMap<_, _> = vars.iter().enumerate().map(|(i, v)| (*v, counts[i % counts.len()])).collect();
         let min = vars.iter().enumerate().map(|(i, _)| counts[i % counts.len()]).min().unwrap_or(0) as usize;
         let ctx = match SymbolicContext::with_extra_state_variables(&b.bn, &map) {
@@ -184,6 +184,21 @@ pub fn nonuniform_check(b: &Bound, texts: &[String], depth_of: &dyn Fn(&str) -> 
                     }
                 }
                 Err(p) => bad.push(format!("formula {t} on a graph with spare variables {counts:?}: panic: {p}")),
+            }
+            // the sanitising entry point: both results live in the canonical context and must be the same set
+            let r = crate::report::guarded(std::panic::AssertUnwindSafe(|| (mc::model_check_formula(t, &g), mc::model_check_formula(t, &gu))));
+            match r {
+                Ok((Ok(a), Ok(u))) => {
+                    if a.as_bdd() != u.as_bdd() {
+                        bad.push(format!("formula {t} on a graph with spare variables per network variable {counts:?}: the sanitised result differs from the one on the uniform graph with k={min}"));
+                    }
+                }
+                Ok((a, u)) => {
+                    if a.is_ok() != u.is_ok() {
+                        bad.push(format!("formula {t} (sanitising entry point) on a graph with spare variables {counts:?}: {:?}, on the uniform graph with k={min}: {:?}", a.map(|_| "ok"), u.map(|_| "ok")));
+                    }
+                }
+                Err(p) => bad.push(format!("formula {t} (sanitising entry point) on a graph with spare variables {counts:?}: panic: {p}")),
             }
             if bad.len() >= 5 {
                 return bad;
